@@ -255,8 +255,9 @@ def validate(traces):
 
 
 def tlc_rename(tier):
-    names = '{"a", "b", "r{2}"}' if tier == "thorough" else '{"a", "r{2}"}'
-    bodies = '{"B2", "B3", "B7"}'       # B3 is the empty script, B7 holds exotic line separators inside a line
+    names = '{"a", "r{2}"}'
+    # B3 is the empty script, B4 holds lines that look like status replies, B6 a blank line, B7 exotic line separators
+    bodies = '{"B3", "B4", "B7"}' if tier != "thorough" else '{"B2", "B3", "B4", "B6", "B7"}'
     cfg = ("SPECIFICATION RSpec\nCONSTANTS\n Names = %s\n Bodies = %s\n FaultKinds = {\"NO\", \"BYE\", \"silence\", \"lost\", \"stall\"}\n"
            "INVARIANT InvNoLoss\nINVARIANT InvNoOverwrite\nINVARIANT InvSuccessPost\nINVARIANT InvFailsCleanly\n"
            "INVARIANT EmitRename\nCHECK_DEADLOCK FALSE\n" % (names, bodies))
